@@ -5,11 +5,14 @@
 (* relation used to judge the real library is satisfiable = not over-strict).   *)
 EXTENDS DbTable, Json
 
+CONSTANT SkipOps      \* entry points left out of this exploration (the cell writers multiply the cell contents: they are
+                      \* explored at the small bound only)
 VARIABLES st, last
 vars == <<st, last>>
 
 Init == st \in {EmptyDb(n, g) : n \in {1, 2}, g \in BOOLEAN} /\ last = [op |-> "init"]
 Next == \E c \in Catalogue :
+          /\ c.op \notin SkipOps
           /\ WithinBounds(c, st)
           /\ st' = Do(c, st)
           /\ last' = c
